@@ -189,6 +189,31 @@ impl Property for C06 {
                 case.pieces[i].bytes.0 = g;
             }
         }
+        if rng.chance(1, 4) {
+            // noise glued to the end of the value in front of it (`"a"x`, `[1]}`, `true?`): the
+            // value is complete where its grammar ends. Only where that end is beyond doubt:
+            // behind a closing quote or bracket anything may follow, behind a word anything
+            // but a letter, a digit or an underscore; behind a number nothing is glued (the
+            // next byte could belong to it).
+            for i in 1..case.pieces.len() {
+                if case.pieces[i].kind != Kind::Garbage || case.pieces[i - 1].kind != Kind::Rec || !rng.chance(1, 2) {
+                    continue;
+                }
+                let Some(&last) = case.pieces[i - 1].bytes.0.last() else { continue };
+                let g = &case.pieces[i].bytes.0;
+                let Some(first) = g.iter().copied().find(|b| !matches!(b, b' ' | b'\t' | b'\n' | b'\r')) else { continue };
+                let ok = match last {
+                    b'"' | b']' | b'}' => true,
+                    b'e' | b'l' => !(first.is_ascii_alphanumeric() || first == b'_'),
+                    _ => false,
+                };
+                if ok {
+                    let skip = g.iter().take_while(|b| matches!(b, b' ' | b'\t' | b'\n' | b'\r')).count();
+                    case.pieces[i].bytes.0.drain(..skip);
+                    case.pieces[i].tag = "glued-after".into();
+                }
+            }
+        }
         if count_kind(&case.pieces, Kind::Garbage) == 0 && rng.chance(3, 4) {
             // make sure most scenarios have noise somewhere
             let at = rng.below(case.pieces.len() + 1);
@@ -449,6 +474,9 @@ impl Property for C06 {
             }
             if reached[0].0 <= 1 {
                 ctx.stats.probe("garbage before the first value");
+            }
+            if case.pieces.iter().any(|p| p.tag == "glued-after") {
+                ctx.stats.probe("noise glued to the end of the value in front of it");
             }
             if case.pieces.last().map_or(false, |p| p.kind == Kind::Garbage && p.tag == "at-eof") && reached.len() == regs.len() {
                 ctx.stats.probe("garbage token ends exactly at end of input");
